@@ -10,7 +10,8 @@ from hgmon.build import all_fids
 LEVEL = "exploration"
 RULE = (
     "seeded DAGs in which 1-3 nodes at random positions are interrupts (single and multi output, renamed inputs, sync "
-    "and async handlers); every pause/resume history is played to completion on the async runner under a random "
+    "and async handlers; a quarter of the human's answers are falsy values - False, 0, '', () - which are answers all "
+    "the same); every pause/resume history is played to completion on the async runner under a random "
     "controlled completion order (sibling nodes runnable in the interrupt's step included); interrupts inside nested "
     "graphs at depth 1-2 and two sibling nested graphs that each contain an interrupt with a suspending handler (pause "
     "identity). At each pause: status PAUSED, node path, value = the first input the handler received (call log) = "
@@ -55,12 +56,16 @@ def rename_consumers_fix(spec):
                 ns.pop("rename_in")
 
 
-def answers_for(spec):
+FALSY = [False, 0, 0.0, "", (), frozenset()]
+
+
+def answers_for(spec, rng=None):
+    """The human's answers; a quarter of them are falsy values (an answer that is present is an answer)."""
     out = {}
     for ns in spec["nodes"]:
         if ns["k"] == "int":
             for o in ns["outs"]:
-                out[(ns["name"], o)] = f"answer:{ns['name']}.{o}"
+                out[(ns["name"], o)] = rng.choice(FALSY) if rng is not None and rng.random() < 0.25 else f"answer:{ns['name']}.{o}"
     return out
 
 
@@ -170,8 +175,9 @@ def history(ctx, i):
     spec["bind"] = {k: v for k, v in bind.items()}
     req, opt = ref.ref_inputs(spec)
     inputs = {r: f"run:{r}" for r in req}
-    answers = answers_for(spec)
-    case = {"spec": spec, "inputs": inputs, "interrupts": ints}
+    answers = answers_for(spec, rng)
+    ctx.obs["falsy_answers"] += sum(1 for v in answers.values() if not v)
+    case = {"spec": spec, "inputs": inputs, "interrupts": ints, "answers": [[list(k), repr(v)] for k, v in answers.items()]}
     # the reference outcome: handlers answer by themselves
     auto = auto_spec(spec, answers)
     oa = core.execute(auto, inputs, "async", sched=rt.Sched(default="rand", rng=rng))
